@@ -49,6 +49,15 @@ func ms0(m []string) string {
 	return m[0]
 }
 
+func hasMethod(ms []string, m string) bool {
+	for _, x := range ms {
+		if x == m {
+			return true
+		}
+	}
+	return false
+}
+
 // GenRequests draws the workload: tasks × requests, each with its programs and
 // its fault plan. All faults are decided here, in request-local coordinates.
 func GenRequests(g *tape.Stream, fg *tape.Stream, s *Setup, p *Profile) [][]*Req {
@@ -115,11 +124,11 @@ func GenRequests(g *tape.Stream, fg *tape.Stream, s *Setup, p *Profile) [][]*Req
 					if !ok && (p.KnownChain || g.Intn(4) != 3) {
 						q.Method = ms[0]
 					}
-				} else if p.KnownChain {
+				} else if p.KnownChain && !hasMethod(MethodsOf(r, r.AutoHead), q.Method) {
 					q.Method = ms0(MethodsOf(r, r.AutoHead))
 				}
 			}
-			if q.Tag == "hot" && p.KnownChain {
+			if q.Tag == "hot" && p.KnownChain && !hasMethod(hotMethods, q.Method) {
 				q.Method = ms0(hotMethods)
 			}
 			q.Query = "q=" + q.Name
